@@ -1,1 +1,1142 @@
+(* C19 — lemmas and proofs. *)
+From Coq Require Import String Ascii DecimalString Decimal DecimalZ DecimalPos Permutation.
+From Coq Require Import ZifyBool ZifyNat.
 From Dastard Require Import Common.ZX C19.Model C19.Spec.
+Open Scope Z_scope.
+
+(* ================================================================ row/column codes *)
+
+Lemma land_shiftl_small a b k : 0 <= k -> 0 <= b < 2 ^ k -> Z.land (Z.shiftl a k) b = 0.
+Proof.
+  intros Hk Hb. apply Z.bits_inj'. intros n Hn. rewrite Z.land_spec, Z.bits_0.
+  destruct (Z.ltb_spec n k) as [L|G].
+  - rewrite Z.shiftl_spec_low by lia. reflexivity.
+  - destruct (Z.eq_dec b 0) as [->|NZ]; [rewrite Z.bits_0; apply andb_false_r|].
+    rewrite (Z.bits_above_log2 b n); [apply andb_false_r | lia |].
+    apply Z.log2_lt_pow2; try lia. apply Z.lt_le_trans with (2 ^ k); [lia|].
+    apply Z.pow_le_mono_r; lia.
+Qed.
+
+Lemma lor_shiftl_small a b k : 0 <= k -> 0 <= b < 2 ^ k -> Z.lor (Z.shiftl a k) b = a * 2 ^ k + b.
+Proof.
+  intros Hk Hb. rewrite <- Z.shiftl_mul_pow2 by lia.
+  rewrite <- Z.lxor_lor by (apply land_shiftl_small; lia).
+  symmetry. apply Z.add_nocarry_lxor. apply land_shiftl_small; lia.
+Qed.
+
+Lemma land_65535 x : Z.land x 65535 = x mod 65536.
+Proof. change 65535 with (Z.ones 16). rewrite Z.land_ones by lia. reflexivity. Qed.
+
+Lemma rc_code_arith row col rows cols :
+  rc_code row col rows cols =
+  (((cols mod 65536) * 65536 + rows mod 65536) * 65536 + col mod 65536) * 65536 + row mod 65536.
+Proof.
+  unfold rc_code. rewrite !land_65535.
+  assert (H : forall x, 0 <= x mod 65536 < 2 ^ 16) by (intro x; change (2 ^ 16) with 65536; apply Z.mod_pos_bound; lia).
+  rewrite !lor_shiftl_small by (try lia; apply H). change (2 ^ 16) with 65536. reflexivity.
+Qed.
+
+Lemma rc_decode row col rows cols :
+  0 <= row < 65536 -> 0 <= col < 65536 -> 0 <= rows < 65536 -> 0 <= cols < 65536 ->
+  let c := rc_code row col rows cols in
+  rc_row c = row /\ rc_col c = col /\ rc_rows c = rows /\ rc_cols c = cols.
+Proof.
+  intros H1 H2 H3 H4. cbv zeta. unfold rc_row, rc_col, rc_rows, rc_cols.
+  rewrite rc_code_arith, !land_65535. rewrite !Z.shiftr_div_pow2 by lia.
+  rewrite (Z.mod_small row), (Z.mod_small col), (Z.mod_small rows), (Z.mod_small cols) by lia.
+  change (2 ^ 0) with 1. change (2 ^ 16) with 65536. change (2 ^ 32) with (65536 * 65536).
+  change (2 ^ 48) with (65536 * 65536 * 65536).
+  repeat split.
+  - rewrite Z.div_1_r. rewrite Z.add_comm, Z.mod_add by lia. apply Z.mod_small; lia.
+  - replace ((((cols * 65536 + rows) * 65536 + col) * 65536 + row) / 65536)
+      with ((cols * 65536 + rows) * 65536 + col).
+    + rewrite Z.add_comm, Z.mod_add by lia. apply Z.mod_small; lia.
+    + apply Z.div_unique with row; lia.
+  - replace ((((cols * 65536 + rows) * 65536 + col) * 65536 + row) / (65536 * 65536))
+      with (cols * 65536 + rows).
+    + rewrite Z.add_comm, Z.mod_add by lia. apply Z.mod_small; lia.
+    + apply Z.div_unique with (col * 65536 + row); lia.
+  - replace ((((cols * 65536 + rows) * 65536 + col) * 65536 + row) / (65536 * 65536 * 65536)) with cols.
+    + apply Z.mod_small; lia.
+    + apply Z.div_unique with ((rows * 65536 + col) * 65536 + row); lia.
+Qed.
+
+Lemma rc_code_range row col rows cols : 0 <= rc_code row col rows cols < 2 ^ 64.
+Proof.
+  rewrite rc_code_arith.
+  assert (H : forall x, 0 <= x mod 65536 < 65536) by (intro x; apply Z.mod_pos_bound; lia).
+  pose proof (H row); pose proof (H col); pose proof (H rows); pose proof (H cols).
+  change (2 ^ 64) with (65536 * 65536 * 65536 * 65536). nia.
+Qed.
+
+(* ================================================================ text: decimal rendering is injective *)
+
+Lemma to_int_not_nil z : Z.to_int z <> Pos Nil /\ Z.to_int z <> Neg Nil.
+Proof.
+  destruct z as [|p|p]; cbn; split; intro H; try discriminate; injection H as H;
+    exact (Unsigned.to_uint_nonnil p H).
+Qed.
+
+Lemma dec_inj a b : dec a = dec b -> a = b.
+Proof.
+  unfold dec. intro H.
+  destruct (to_int_not_nil a) as [A1 A2], (to_int_not_nil b) as [B1 B2].
+  pose proof (NilZero.isi _ A1 A2) as Ia. pose proof (NilZero.isi _ B1 B2) as Ib.
+  rewrite H in Ia. rewrite Ia in Ib. injection Ib as E.
+  rewrite <- (DecimalZ.of_to a), <- (DecimalZ.of_to b), E. reflexivity.
+Qed.
+
+Lemma append_inj_l p a b : String.append p a = String.append p b -> a = b.
+Proof. induction p as [|c p IH]; cbn; intro H; [exact H | injection H as H; auto]. Qed.
+
+Lemma err_name_inj a b : err_name a = err_name b -> a = b.
+Proof. unfold err_name. intro H. apply dec_inj. exact (append_inj_l _ _ _ H). Qed.
+Lemma chan_name_inj a b : chan_name a = chan_name b -> a = b.
+Proof. unfold chan_name. intro H. apply dec_inj. exact (append_inj_l _ _ _ H). Qed.
+Lemma err_chan_distinct a b : err_name a <> chan_name b.
+Proof. unfold err_name, chan_name. cbn. discriminate. Qed.
+
+(* ================================================================ ranges, pairs, groups *)
+
+Lemma zrange_nat_In a n x : In x (zrange_nat a n) <-> a <= x < a + Z.of_nat n.
+Proof.
+  revert a; induction n as [|n IH]; intro a; cbn [zrange_nat In].
+  - split; [tauto | lia].
+  - rewrite IH. lia.
+Qed.
+Lemma zrange_In a n x : In x (zrange a n) <-> a <= x < a + n.
+Proof. unfold zrange. rewrite zrange_nat_In. lia. Qed.
+
+Lemma zrange_nat_NoDup a n : NoDup (zrange_nat a n).
+Proof.
+  revert a; induction n as [|n IH]; intro a; cbn [zrange_nat]; constructor; [|apply IH].
+  rewrite zrange_nat_In. lia.
+Qed.
+Lemma zrange_NoDup a n : NoDup (zrange a n).
+Proof. apply zrange_nat_NoDup. Qed.
+
+Lemma zrange_nil a n : n <= 0 -> zrange a n = [].
+Proof. intro H. unfold zrange. replace (Z.to_nat n) with O by lia. reflexivity. Qed.
+
+Lemma zrange_cons a n : 0 < n -> zrange a n = a :: zrange (a + 1) (n - 1).
+Proof.
+  intro H. unfold zrange. replace (Z.to_nat n) with (S (Z.to_nat (n - 1))) by lia. reflexivity.
+Qed.
+
+Lemma dup_app {A} (a b : list A) : dup (a ++ b) = dup a ++ dup b.
+Proof. unfold dup. apply flat_map_app. Qed.
+
+Lemma dup_length {A} (l : list A) : zlen (dup l) = 2 * zlen l.
+Proof.
+  unfold zlen. induction l as [|x l IH]; [reflexivity|].
+  cbn [dup flat_map app length]. fold (dup l). cbn [length] in *. lia.
+Qed.
+
+Lemma In_dup {A} (x : A) l : In x (dup l) <-> In x l.
+Proof.
+  induction l as [|y l IH]; cbn [dup flat_map app In]; [tauto|].
+  fold (dup l). rewrite IH. tauto.
+Qed.
+
+(* positions of a duplicated list *)
+Lemma dup_znth {A} (d : A) l p : 0 <= p < 2 * zlen l -> znth d (dup l) p = znth d l (p / 2).
+Proof.
+  revert p; induction l as [|x l IH]; intros p Hp.
+  - unfold zlen in Hp; cbn in Hp; lia.
+  - unfold zlen in Hp. cbn [length] in Hp.
+    cbn [dup flat_map app]. fold (dup l).
+    destruct (Z.eq_dec p 0) as [->|N0]; [reflexivity|].
+    destruct (Z.eq_dec p 1) as [->|N1]; [reflexivity|].
+    assert (E : znth d (x :: x :: dup l) p = znth d (dup l) (p - 2)).
+    { unfold znth. destruct (p <? 0) eqn:E1; [lia|]. destruct (p - 2 <? 0) eqn:E2; [lia|].
+      replace (Z.to_nat p) with (S (S (Z.to_nat (p - 2)))) by lia. reflexivity. }
+    rewrite E, IH by (unfold zlen; lia).
+    replace (p / 2) with ((p - 2) / 2 + 1).
+    2:{ replace p with ((p - 2) + 1 * 2) at 2 by lia. rewrite Z.div_add by lia. reflexivity. }
+    assert (0 <= (p - 2) / 2) by (apply Z.div_pos; lia).
+    unfold znth. destruct ((p - 2) / 2 <? 0) eqn:E1; [lia|]. destruct ((p - 2) / 2 + 1 <? 0) eqn:E2; [lia|].
+    replace (Z.to_nat ((p - 2) / 2 + 1)) with (S (Z.to_nat ((p - 2) / 2))) by lia. reflexivity.
+Qed.
+
+Lemma NoDup_znth_inj (l : list Z) i j :
+  NoDup l -> 0 <= i < zlen l -> 0 <= j < zlen l -> znth 0 l i = znth 0 l j -> i = j.
+Proof.
+  intros ND Hi Hj E. unfold znth in E. unfold zlen in *.
+  destruct (i <? 0) eqn:E1; [lia|]. destruct (j <? 0) eqn:E2; [lia|].
+  assert (Z.to_nat i = Z.to_nat j) by (apply (proj1 (NoDup_nth l 0) ND); try lia; exact E). lia.
+Qed.
+
+Lemma NoDup_app_intro {A} (a b : list A) :
+  NoDup a -> NoDup b -> (forall x, In x a -> In x b -> False) -> NoDup (a ++ b).
+Proof.
+  induction a as [|x a IH]; cbn [app]; intros Ha Hb H; [exact Hb|].
+  inversion Ha as [|? ? Hx Ha']; subst. constructor.
+  - rewrite in_app_iff. intros [H1|H1]; [auto | exact (H x (or_introl eq_refl) H1)].
+  - apply IH; auto. intros y Hy. apply H. now right.
+Qed.
+
+Lemma NoDup_app_inv {A} (a b : list A) :
+  NoDup (a ++ b) -> NoDup a /\ NoDup b /\ (forall x, In x a -> In x b -> False).
+Proof.
+  induction a as [|x a IH]; cbn [app]; intro H.
+  - repeat split; [constructor | exact H | intros x []].
+  - inversion H as [|? ? Hx H']; subst. destruct (IH H') as [Ha [Hb Hd]].
+    rewrite in_app_iff in Hx. repeat split; auto.
+    + constructor; auto.
+    + intros y [->|Hy] Hyb; [auto | eauto].
+Qed.
+
+(* all channel numbers of a list of groups, in order *)
+Definition gnums (gs : list (Z * Z)) : list Z := flat_map (fun g => zrange (fst g) (snd g)) gs.
+
+Lemma gnums_app a b : gnums (a ++ b) = gnums a ++ gnums b.
+Proof. apply flat_map_app. Qed.
+
+Lemma In_gnums x gs : In x (gnums gs) <-> exists g, In g gs /\ in_grp x g.
+Proof.
+  unfold gnums, in_grp. rewrite in_flat_map. split; intros [g [H1 H2]]; exists g; split; auto.
+  - now apply zrange_In.
+  - now apply zrange_In.
+Qed.
+
+Lemma gdisj_no_common g h x : gdisj g h -> in_grp x g -> in_grp x h -> False.
+Proof. unfold gdisj, in_grp. lia. Qed.
+
+Lemma pdisj_NoDup gs : pdisj gs -> NoDup (gnums gs).
+Proof.
+  induction gs as [|g r IH]; cbn [pdisj gnums flat_map]; intro H; [constructor|].
+  destruct H as [H1 H2]. fold (gnums r).
+  apply NoDup_app_intro; [apply zrange_NoDup | auto |].
+  intros x Hx Hr. apply zrange_In in Hx. apply In_gnums in Hr as [h [Hh Hxh]].
+  rewrite Forall_forall in H1. exact (gdisj_no_common g h x (H1 h Hh) Hx Hxh).
+Qed.
+
+(* ================================================================ Lancero: what the loops produce *)
+
+Definition names_of (L : list Z) : list string := flat_map (fun x => [err_name x; chan_name x]) L.
+Definition geo_code (g : geo) : Z := rc_code (g_row g) (g_col g) (g_rows g) (g_cols g).
+
+Lemma names_of_app a b : names_of (a ++ b) = names_of a ++ names_of b.
+Proof. apply flat_map_app. Qed.
+
+Lemma zlen_cons {A} (x : A) l : zlen (x :: l) = zlen l + 1.
+Proof. unfold zlen. cbn [length]. lia. Qed.
+
+Lemma rows_loop_spec rows col nrows ncols : forall cnum,
+  let r := rows_loop rows col nrows ncols cnum in
+  snd r = cnum + zlen rows /\
+  map e_num (fst r) = dup (zrange cnum (zlen rows)) /\
+  map e_name (fst r) = names_of (zrange cnum (zlen rows)) /\
+  map e_rc (fst r) = dup (map (fun row => rc_code row col nrows ncols) rows) /\
+  map e_sub (fst r) = flat_map (fun row => [row; 0]) rows.
+Proof.
+  induction rows as [|row rest IH]; intro cnum; cbv zeta.
+  - cbn [rows_loop fst snd map]. unfold zlen; cbn [length]. rewrite zrange_nil by lia. cbn. repeat split; lia.
+  - cbn [rows_loop]. specialize (IH (cnum + 1)). cbv zeta in IH.
+    destruct (rows_loop rest col nrows ncols (cnum + 1)) as [es cn] eqn:E. cbn [fst snd] in *.
+    destruct IH as (I1 & I2 & I3 & I4 & I5).
+    rewrite zlen_cons. pose proof (zlen_nonneg rest).
+    rewrite (zrange_cons cnum) by lia. replace (zlen rest + 1 - 1) with (zlen rest) by lia.
+    cbn [map dup names_of flat_map app e_num e_name e_rc e_sub].
+    fold (dup (zrange (cnum + 1) (zlen rest))). fold (names_of (zrange (cnum + 1) (zlen rest))).
+    fold (dup (map (fun row0 => rc_code row0 col nrows ncols) rest)).
+    rewrite I2, I3, I4, I5. repeat split; try reflexivity. lia.
+Qed.
+
+Definition col_geos (cols : list Z) (nrows ncols : Z) : list geo :=
+  flat_map (fun col => map (fun row => mkG row col nrows ncols) (zrange 0 nrows)) cols.
+Definition col_subs (cols : list Z) (nrows : Z) : list Z :=
+  flat_map (fun col => flat_map (fun row => [row; 0]) (zrange 0 nrows)) cols.
+
+Lemma cols_loop_spec cols sepCols nrows ncols : forall cnum tcf es gs c' t',
+  cols_loop cols sepCols nrows ncols cnum tcf = (es, gs, c', t') ->
+  map e_num es = dup (gnums gs) /\
+  map e_name es = names_of (gnums gs) /\
+  map e_rc es = dup (map geo_code (col_geos cols nrows ncols)) /\
+  map e_sub es = col_subs cols nrows /\
+  Forall (fun g => snd g = nrows) gs /\
+  length gs = length cols.
+Proof.
+  induction cols as [|col rest IH]; intros cnum tcf es gs c' t' H.
+  - cbn [cols_loop] in H. injection H as <- <- <- <-. cbn. repeat split; constructor.
+  - cbn [cols_loop] in H.
+    set (cn := if sepCols >? 0 then tcf + sepCols else cnum) in *.
+    pose proof (rows_loop_spec (zrange 0 nrows) col nrows ncols cn) as R. cbv zeta in R.
+    destruct (rows_loop (zrange 0 nrows) col nrows ncols cn) as [es1 cn1] eqn:E1. cbn [fst snd] in R.
+    destruct (cols_loop rest sepCols nrows ncols cn1 cn) as [[[es2 gs2] c2] t2] eqn:E2.
+    injection H as <- <- <- <-.
+    specialize (IH _ _ _ _ _ _ E2). destruct IH as (I1 & I2 & I3 & I4 & I5 & I6).
+    destruct R as (R1 & R2 & R3 & R4 & R5).
+    rewrite zrange_length in R2, R3.
+    assert (Z0 : zrange cn (Z.max 0 nrows) = zrange cn nrows).
+    { destruct (Z.le_gt_cases 0 nrows); [now rewrite Z.max_r by lia|].
+      rewrite Z.max_l by lia. now rewrite !zrange_nil by lia. }
+    rewrite Z0 in R2, R3.
+    rewrite !map_app. cbn [gnums flat_map fst snd col_geos col_subs]. fold (gnums gs2).
+    fold (col_geos rest nrows ncols). fold (col_subs rest nrows).
+    rewrite dup_app, names_of_app, map_app, dup_app, map_map.
+    rewrite R2, R3, R4, R5, I1, I2, I3, I4. cbn [geo_code g_row g_col g_rows g_cols].
+    repeat split; try reflexivity.
+    + constructor; [reflexivity | exact I5].
+    + cbn [length]. now rewrite I6.
+Qed.
+
+(* the column a run of columns starts at, and the distance between column starts *)
+Definition nf (sepCols cnum tcf : Z) : Z := if sepCols >? 0 then tcf + sepCols else cnum.
+Definition colsep (sepCols nrows : Z) : Z := if sepCols >? 0 then sepCols else nrows.
+
+(* consecutive groups, each starting at or after the end of the one before, all inside [lo, hi) *)
+Fixpoint gchain (lo : Z) (gs : list (Z * Z)) (hi : Z) : Prop :=
+  match gs with
+  | [] => lo <= hi
+  | g :: r => lo <= fst g /\ 0 <= snd g /\ gchain (fst g + snd g) r hi
+  end.
+
+Lemma gchain_le lo gs hi : gchain lo gs hi -> lo <= hi.
+Proof.
+  revert lo; induction gs as [|g r IH]; cbn [gchain]; intros lo H; [exact H|].
+  destruct H as (H1 & H2 & H3). apply IH in H3. lia.
+Qed.
+
+Lemma gchain_weaken lo lo' gs hi hi' : lo' <= lo -> hi <= hi' -> gchain lo gs hi -> gchain lo' gs hi'.
+Proof.
+  revert lo lo'; induction gs as [|g r IH]; cbn [gchain]; intros lo lo' L H G; [lia|].
+  destruct G as (G1 & G2 & G3). repeat split; try lia. eapply IH; [| exact H | exact G3]. lia.
+Qed.
+
+Lemma gchain_app lo a mid b hi : gchain lo a mid -> gchain mid b hi -> gchain lo (a ++ b) hi.
+Proof.
+  revert lo; induction a as [|g r IH]; cbn [gchain app]; intros lo Ha Hb.
+  - eapply gchain_weaken; [exact Ha | apply Z.le_refl | exact Hb].
+  - destruct Ha as (H1 & H2 & H3). repeat split; auto.
+Qed.
+
+Lemma gchain_within lo gs hi g : gchain lo gs hi -> In g gs -> 0 <= snd g /\ lo <= fst g /\ fst g + snd g <= hi.
+Proof.
+  revert lo; induction gs as [|h r IH]; cbn [gchain In]; intros lo G H; [tauto|].
+  destruct G as (G1 & G2 & G3). destruct H as [->|H].
+  - apply gchain_le in G3. lia.
+  - specialize (IH _ G3 H). lia.
+Qed.
+
+Lemma gchain_pdisj lo gs hi : gchain lo gs hi -> pdisj gs.
+Proof.
+  revert lo; induction gs as [|g r IH]; cbn [gchain pdisj]; intros lo G; [exact I|].
+  destruct G as (G1 & G2 & G3). split; [|eauto].
+  apply Forall_forall. intros h Hh. pose proof (gchain_within _ _ _ _ G3 Hh). unfold gdisj. lia.
+Qed.
+
+Lemma cols_loop_chain cols sepCols nrows ncols : forall cnum tcf es gs c' t',
+  0 <= nrows -> (sepCols >? 0 = true -> nrows <= sepCols) ->
+  cols_loop cols sepCols nrows ncols cnum tcf = (es, gs, c', t') ->
+  gchain (nf sepCols cnum tcf) gs (nf sepCols c' t') /\
+  nf sepCols c' t' = nf sepCols cnum tcf + zlen cols * colsep sepCols nrows.
+Proof.
+  induction cols as [|col rest IH]; intros cnum tcf es gs c' t' Hn Hs H.
+  - cbn [cols_loop] in H. injection H as <- <- <- <-. cbn [gchain]. unfold zlen; cbn [length]. lia.
+  - cbn [cols_loop] in H. fold (nf sepCols cnum tcf) in H.
+    set (cn := nf sepCols cnum tcf) in *.
+    pose proof (rows_loop_spec (zrange 0 nrows) col nrows ncols cn) as R. cbv zeta in R.
+    destruct (rows_loop (zrange 0 nrows) col nrows ncols cn) as [es1 cn1] eqn:E1. cbn [fst snd] in R.
+    destruct R as (R1 & _). rewrite zrange_length, Z.max_r in R1 by lia.
+    destruct (cols_loop rest sepCols nrows ncols cn1 cn) as [[[es2 gs2] c2] t2] eqn:E2.
+    injection H as <- <- <- <-.
+    destruct (IH _ _ _ _ _ _ Hn Hs E2) as [I1 I2].
+    rewrite zlen_cons. cbn [gchain fst snd].
+    assert (N : cn + nrows <= nf sepCols cn1 cn).
+    { unfold nf. destruct (sepCols >? 0) eqn:E; [specialize (Hs eq_refl); lia | lia]. }
+    assert (N2 : nf sepCols cn1 cn = cn + colsep sepCols nrows).
+    { unfold nf, colsep. destruct (sepCols >? 0); lia. }
+    split.
+    + repeat split; try lia. eapply gchain_weaken; [exact N | apply Z.le_refl | exact I1].
+    + rewrite I2, N2. lia.
+Qed.
+
+Definition dev_subs (devs : list card) : list Z :=
+  flat_map (fun d => col_subs (zrange 0 (c_ncols d)) (c_nrows d)) devs.
+
+Lemma devs_loop_spec devs first sepCards sepCols : forall cnum tcf sd mx es gs sd' mx',
+  devs_loop devs first sepCards sepCols cnum tcf sd mx = (es, gs, sd', mx') ->
+  map e_num es = dup (gnums gs) /\
+  map e_name es = names_of (gnums gs) /\
+  map e_rc es = dup (map geo_code (lancero_geos devs)) /\
+  map e_sub es = dev_subs devs.
+Proof.
+  induction devs as [|d rest IH]; intros cnum tcf sd mx es gs sd' mx' H.
+  - cbn [devs_loop] in H. injection H as <- <- <- <-. cbn. repeat split.
+  - cbn [devs_loop] in H.
+    set (cn := if sepCards >? 0 then c_dev d * sepCards + first else cnum) in *.
+    set (tc := if sepCards >? 0 then cn - sepCols else tcf) in *.
+    destruct (cols_loop (zrange 0 (c_ncols d)) sepCols (c_nrows d) (c_ncols d) cn tc) as [[[es1 gs1] c1] t1] eqn:E1.
+    match type of H with context [devs_loop rest first sepCards sepCols c1 t1 ?a ?b] =>
+      destruct (devs_loop rest first sepCards sepCols c1 t1 a b) as [[[es2 gs2] sd2] mx2] eqn:E2 end.
+    injection H as <- <- <- <-.
+    destruct (cols_loop_spec _ _ _ _ _ _ _ _ _ _ E1) as (C1 & C2 & C3 & C4 & _).
+    destruct (IH _ _ _ _ _ _ _ _ E2) as (I1 & I2 & I3 & I4).
+    rewrite !map_app, gnums_app, dup_app, names_of_app.
+    cbn [lancero_geos flat_map dev_subs]. fold (lancero_geos rest). fold (dev_subs rest).
+    rewrite map_app, dup_app. change (card_geos d) with (col_geos (zrange 0 (c_ncols d)) (c_nrows d) (c_ncols d)).
+    rewrite C1, C2, C3, C4, I1, I2, I3, I4. repeat split.
+Qed.
+
+Definition dev_ok (sepCards sepCols : Z) (d : card) : Prop :=
+  0 <= c_ncols d /\ 0 <= c_nrows d /\
+  (sepCols >? 0 = true -> c_nrows d <= sepCols) /\
+  (sepCards >? 0 = true -> colsep sepCols (c_nrows d) * c_ncols d <= sepCards).
+
+Lemma devs_loop_chain devs first sepCards sepCols : sepCards >? 0 = false ->
+  forall cnum tcf sd mx es gs sd' mx',
+  Forall (dev_ok sepCards sepCols) devs ->
+  devs_loop devs first sepCards sepCols cnum tcf sd mx = (es, gs, sd', mx') ->
+  exists hi, gchain (nf sepCols cnum tcf) gs hi.
+Proof.
+  intro S. induction devs as [|d rest IH]; intros cnum tcf sd mx es gs sd' mx' OK H.
+  - cbn [devs_loop] in H. injection H as <- <- <- <-. exists (nf sepCols cnum tcf). cbn. lia.
+  - cbn [devs_loop] in H. rewrite S in H.
+    destruct (cols_loop (zrange 0 (c_ncols d)) sepCols (c_nrows d) (c_ncols d) cnum tcf) as [[[es1 gs1] c1] t1] eqn:E1.
+    match type of H with context [devs_loop rest first sepCards sepCols c1 t1 ?a ?b] =>
+      destruct (devs_loop rest first sepCards sepCols c1 t1 a b) as [[[es2 gs2] sd2] mx2] eqn:E2 end.
+    injection H as <- <- <- <-.
+    inversion OK as [|? ? Hd Hr]; subst. destruct Hd as (D1 & D2 & D3 & D4).
+    destruct (cols_loop_chain _ _ _ _ _ _ _ _ _ _ D2 D3 E1) as [G1 _].
+    destruct (IH _ _ _ _ _ _ _ _ Hr E2) as [hi G2].
+    exists hi. eapply gchain_app; eauto.
+Qed.
+
+Lemma pdisj_app a b : pdisj a -> pdisj b -> (forall g h, In g a -> In h b -> gdisj g h) -> pdisj (a ++ b).
+Proof.
+  induction a as [|x a IH]; cbn [pdisj app]; intros Ha Hb H; [exact Hb|].
+  destruct Ha as [H1 H2]. split.
+  - apply Forall_app. split; [exact H1|]. apply Forall_forall. intros h Hh. apply H; [now left | exact Hh].
+  - apply IH; auto. intros g h Hg Hh. apply H; [now right | exact Hh].
+Qed.
+
+(* the block of channel numbers reserved for one card when cards are numbered apart *)
+Definition win (first sepCards : Z) (d : card) (g : Z * Z) : Prop :=
+  0 <= snd g /\ c_dev d * sepCards + first <= fst g /\ fst g + snd g <= c_dev d * sepCards + first + sepCards.
+
+Lemma win_disjoint first sepCards d d' g h :
+  0 < sepCards -> c_dev d <> c_dev d' -> win first sepCards d g -> win first sepCards d' h -> gdisj g h.
+Proof.
+  unfold win, gdisj. intros S N (G1 & G2 & G3) (H1 & H2 & H3).
+  destruct (Z.lt_total (c_dev d) (c_dev d')) as [L|[E|L]]; [| contradiction |].
+  - assert ((c_dev d + 1) * sepCards <= c_dev d' * sepCards) by (apply Z.mul_le_mono_nonneg_r; lia). lia.
+  - assert ((c_dev d' + 1) * sepCards <= c_dev d * sepCards) by (apply Z.mul_le_mono_nonneg_r; lia). lia.
+Qed.
+
+Lemma devs_loop_windows devs first sepCards sepCols : sepCards >? 0 = true ->
+  forall cnum tcf sd mx es gs sd' mx',
+  Forall (dev_ok sepCards sepCols) devs -> NoDup (map c_dev devs) ->
+  devs_loop devs first sepCards sepCols cnum tcf sd mx = (es, gs, sd', mx') ->
+  pdisj gs /\ forall g, In g gs -> exists d, In d devs /\ win first sepCards d g.
+Proof.
+  intro S. induction devs as [|d rest IH]; intros cnum tcf sd mx es gs sd' mx' OK ND H.
+  - cbn [devs_loop] in H. injection H as <- <- <- <-. split; [exact I | intros g []].
+  - cbn [devs_loop] in H. rewrite S in H.
+    set (base := c_dev d * sepCards + first) in *.
+    destruct (cols_loop (zrange 0 (c_ncols d)) sepCols (c_nrows d) (c_ncols d) base (base - sepCols)) as [[[es1 gs1] c1] t1] eqn:E1.
+    match type of H with context [devs_loop rest first sepCards sepCols c1 t1 ?a ?b] =>
+      destruct (devs_loop rest first sepCards sepCols c1 t1 a b) as [[[es2 gs2] sd2] mx2] eqn:E2 end.
+    injection H as <- <- <- <-.
+    inversion OK as [|? ? Hd Hr]; subst. destruct Hd as (D1 & D2 & D3 & D4).
+    cbn [map] in ND. inversion ND as [|? ? Nd NDr]; subst.
+    destruct (cols_loop_chain _ _ _ _ _ _ _ _ _ _ D2 D3 E1) as [G1 G2].
+    assert (B : nf sepCols base (base - sepCols) = base) by (unfold nf; destruct (sepCols >? 0); lia).
+    rewrite B in G1, G2. rewrite zrange_length, Z.max_r in G2 by lia.
+    specialize (D4 S).
+    assert (W1 : forall g, In g gs1 -> win first sepCards d g).
+    { intros g Hg. pose proof (gchain_within _ _ _ _ G1 Hg) as (W & X & Y). unfold win. fold base. lia. }
+    destruct (IH _ _ _ _ _ _ _ _ Hr NDr E2) as [P2 W2].
+    split.
+    + apply pdisj_app; [eapply gchain_pdisj; eauto | exact P2 |].
+      intros g h Hg Hh. destruct (W2 h Hh) as [d' [Hd' Wh]].
+      apply (win_disjoint first sepCards d d'); auto; [lia|].
+      intro E. apply Nd. rewrite E. now apply in_map.
+    + intros g Hg. apply in_app_iff in Hg as [Hg|Hg].
+      * exists d. split; [now left | auto].
+      * destruct (W2 g Hg) as [d' [Hd' Wg]]. exists d'. split; [now right | auto].
+Qed.
+
+(* ================================================================ Lancero: accepted configurations *)
+
+Lemma existsb_false {A} (f : A -> bool) l : existsb f l = false -> forall x, In x l -> f x = false.
+Proof.
+  intros H x Hx. destruct (f x) eqn:E; [|reflexivity].
+  assert (existsb f l = true) by (apply existsb_exists; eauto). congruence.
+Qed.
+
+Lemma lancero_prepare_accept s s' t :
+  lancero_prepare s = (s', Some t) ->
+  exists es gs sd mx,
+    lancero_number s 0 false = (es, gs, sd, mx) /\ t = tables_of es gs sd 2 /\
+    s' = mkL (l_active s) (l_first s) (l_sepCards s) (l_sepCols s) sd mx (l_cfgerr s) /\
+    0 <= l_sepCards s /\ 0 <= l_sepCols s /\ rows_exceed_sep s = false /\ card_exceeds_sep s = false.
+Proof.
+  unfold lancero_prepare. intro H.
+  destruct (l_sepCards s <? 0) eqn:E1; [discriminate|].
+  destruct (l_sepCols s <? 0) eqn:E2; [discriminate|].
+  destruct (rows_exceed_sep s) eqn:E3; [discriminate|].
+  destruct (card_exceeds_sep s) eqn:E4; [discriminate|].
+  destruct (lancero_number s 0 false) as [[[es gs] sd] mx] eqn:E5.
+  injection H as <- <-. exists es, gs, sd, mx. repeat split; auto; lia.
+Qed.
+
+Lemma lancero_valid_dev_ok s :
+  dims_nonneg (l_active s) -> rows_exceed_sep s = false -> card_exceeds_sep s = false ->
+  Forall (dev_ok (l_sepCards s) (l_sepCols s)) (l_active s).
+Proof.
+  unfold dims_nonneg, rows_exceed_sep, card_exceeds_sep. intros D R C.
+  rewrite Forall_forall in *. intros d Hd. destruct (D d Hd) as [D1 D2].
+  unfold dev_ok. repeat split; auto.
+  - intro S. rewrite S in R. cbn [andb] in R. pose proof (existsb_false _ _ R d Hd) as X. cbv beta in X. lia.
+  - intro S. rewrite S in C. cbn [andb] in C. pose proof (existsb_false _ _ C d Hd) as X. cbv beta in X.
+    unfold colsep. lia.
+Qed.
+
+Lemma lancero_groups_pdisj s es gs sd mx sd0 mx0 :
+  NoDup (map c_dev (l_active s)) -> dims_nonneg (l_active s) ->
+  rows_exceed_sep s = false -> card_exceeds_sep s = false ->
+  lancero_number s sd0 mx0 = (es, gs, sd, mx) -> pdisj gs.
+Proof.
+  intros ND D R C H. pose proof (lancero_valid_dev_ok s D R C) as OK. unfold lancero_number in H.
+  destruct (l_sepCards s >? 0) eqn:S.
+  - exact (proj1 (devs_loop_windows _ _ _ _ S _ _ _ _ _ _ _ _ OK ND H)).
+  - destruct (devs_loop_chain _ _ _ _ S _ _ _ _ _ _ _ _ OK H) as [hi G]. eapply gchain_pdisj; eauto.
+Qed.
+
+Lemma pair_znth {B} (d : B) (f g : Z -> B) L i : 0 <= i < zlen L ->
+  znth d (flat_map (fun x => [f x; g x]) L) (2 * i) = f (znth 0 L i) /\
+  znth d (flat_map (fun x => [f x; g x]) L) (2 * i + 1) = g (znth 0 L i).
+Proof.
+  revert i; induction L as [|x L IH]; intros i Hi.
+  - unfold zlen in Hi; cbn in Hi; lia.
+  - rewrite zlen_cons in Hi. cbn [flat_map app].
+    destruct (Z.eq_dec i 0) as [->|N]; [split; reflexivity|].
+    specialize (IH (i - 1) ltac:(lia)). destruct IH as [I1 I2].
+    assert (T : forall (l : list B) a b k, 2 <= k -> znth d (a :: b :: l) k = znth d l (k - 2)).
+    { intros l a b k Hk. unfold znth. destruct (k <? 0) eqn:E1; [lia|]. destruct (k - 2 <? 0) eqn:E2; [lia|].
+      replace (Z.to_nat k) with (S (S (Z.to_nat (k - 2)))) by lia. reflexivity. }
+    assert (U : znth 0 (x :: L) i = znth 0 L (i - 1)).
+    { unfold znth. destruct (i <? 0) eqn:E1; [lia|]. destruct (i - 1 <? 0) eqn:E2; [lia|].
+      replace (Z.to_nat i) with (S (Z.to_nat (i - 1))) by lia. reflexivity. }
+    rewrite !T by lia. rewrite U.
+    replace (2 * i - 2) with (2 * (i - 1)) by lia. replace (2 * i + 1 - 2) with (2 * (i - 1) + 1) by lia.
+    split; assumption.
+Qed.
+
+Lemma In_names_of n L : In n (names_of L) <-> exists x, In x L /\ (n = err_name x \/ n = chan_name x).
+Proof.
+  unfold names_of. rewrite in_flat_map. split.
+  - intros [x [Hx H]]. exists x. split; auto. cbn in H. intuition.
+  - intros [x [Hx H]]. exists x. split; auto. cbn. intuition.
+Qed.
+
+Lemma names_of_NoDup L : NoDup L -> NoDup (names_of L).
+Proof.
+  induction L as [|x L IH]; intro ND; [constructor|].
+  inversion ND as [|? ? Hx ND']; subst. cbn [names_of flat_map app]. fold (names_of L).
+  constructor; [|constructor; [|auto]].
+  - cbn [In]. intros [E|H]; [symmetry in E; exact (err_chan_distinct _ _ E)|].
+    apply In_names_of in H as [y [Hy [E|E]]].
+    + apply err_name_inj in E. subst; auto.
+    + exact (err_chan_distinct _ _ E).
+  - intro H. apply In_names_of in H as [y [Hy [E|E]]].
+    + symmetry in E. exact (err_chan_distinct _ _ E).
+    + apply chan_name_inj in E. subst; auto.
+Qed.
+
+Lemma names_of_length L : zlen (names_of L) = 2 * zlen L.
+Proof.
+  unfold zlen. induction L as [|x L IH]; [reflexivity|].
+  cbn [names_of flat_map app length]. fold (names_of L). cbn [length] in *. lia.
+Qed.
+
+Lemma zlen_map {A B} (f : A -> B) l : zlen (map f l) = zlen l.
+Proof. unfold zlen. now rewrite map_length. Qed.
+
+(* everything about an accepted Lancero configuration, in one place *)
+Lemma lancero_identity s s' t :
+  NoDup (map c_dev (l_active s)) -> dims_nonneg (l_active s) ->
+  lancero_prepare s = (s', Some t) ->
+  let L := gnums (t_groups t) in
+  t_nums t = dup L /\ t_names t = names_of L /\ NoDup L /\ pdisj (t_groups t) /\
+  t_rc t = dup (map geo_code (lancero_geos (l_active s))) /\
+  zlen L = zlen (lancero_geos (l_active s)) /\
+  t_sub t = dev_subs (l_active s) /\ t_cpp t = 2.
+Proof.
+  intros ND D H. destruct (lancero_prepare_accept _ _ _ H) as (es & gs & sd & mx & N & -> & _ & S1 & S2 & R & C).
+  cbn [tables_of t_groups t_nums t_names t_rc t_sub t_cpp]. cbv zeta.
+  pose proof (lancero_groups_pdisj _ _ _ _ _ _ _ ND D R C N) as P.
+  unfold lancero_number in N. destruct (devs_loop_spec _ _ _ _ _ _ _ _ _ _ _ _ N) as (A1 & A2 & A3 & A4).
+  repeat split; auto.
+  - now apply pdisj_NoDup.
+  - assert (E : zlen (dup (gnums gs)) = zlen (dup (map geo_code (lancero_geos (l_active s))))).
+    { rewrite <- A1, <- A3, !zlen_map. reflexivity. }
+    rewrite !dup_length, zlen_map in E. lia.
+Qed.
+
+(* ================================================================ Lancero: headline statements *)
+
+Lemma lancero_numbering s s' t :
+  NoDup (map c_dev (l_active s)) -> dims_nonneg (l_active s) ->
+  lancero_prepare s = (s', Some t) ->
+  let n := zlen (lancero_geos (l_active s)) in
+  zlen (t_nums t) = 2 * n /\ zlen (t_names t) = 2 * n /\
+  (forall p q, 0 <= p < 2 * n -> 0 <= q < 2 * n ->
+     (znth 0 (t_nums t) p = znth 0 (t_nums t) q <-> p / 2 = q / 2)) /\
+  (forall i, 0 <= i < n ->
+     znth_s (t_names t) (2 * i) = err_name (znth 0 (t_nums t) (2 * i)) /\
+     znth_s (t_names t) (2 * i + 1) = chan_name (znth 0 (t_nums t) (2 * i + 1))) /\
+  NoDup (t_names t).
+Proof.
+  intros ND D H. destruct (lancero_identity _ _ _ ND D H) as (A1 & A2 & A3 & A4 & A5 & A6 & A7 & A8).
+  cbv zeta. set (L := gnums (t_groups t)) in *. set (n := zlen (lancero_geos (l_active s))) in *.
+  rewrite A1, A2. repeat split.
+  - rewrite dup_length. lia.
+  - rewrite names_of_length. lia.
+  - intro E. rewrite !dup_znth in E by lia.
+    apply (NoDup_znth_inj L); auto.
+    + split; [apply Z.div_pos; lia | apply Z.div_lt_upper_bound; lia].
+    + split; [apply Z.div_pos; lia | apply Z.div_lt_upper_bound; lia].
+  - intro E. rewrite !dup_znth by lia. now rewrite E.
+  - unfold znth_s, names_of. rewrite (proj1 (pair_znth EmptyString err_name chan_name L i ltac:(lia))).
+    rewrite dup_znth by lia. f_equal. f_equal. rewrite Z.mul_comm, Z.div_mul by lia. reflexivity.
+  - unfold znth_s, names_of. rewrite (proj2 (pair_znth EmptyString err_name chan_name L i ltac:(lia))).
+    rewrite dup_znth by lia. f_equal. f_equal.
+    replace (2 * i + 1) with (1 + i * 2) by lia. rewrite Z.div_add by lia. reflexivity.
+  - now apply names_of_NoDup.
+Qed.
+
+Lemma lancero_groups_cover s s' t :
+  NoDup (map c_dev (l_active s)) -> dims_nonneg (l_active s) ->
+  lancero_prepare s = (s', Some t) ->
+  (forall x, In x (t_nums t) <-> exists g, In g (t_groups t) /\ in_grp x g) /\ pdisj (t_groups t).
+Proof.
+  intros ND D H. destruct (lancero_identity _ _ _ ND D H) as (A1 & A2 & A3 & A4 & _).
+  split; [|exact A4]. intro x. rewrite A1, In_dup. apply In_gnums.
+Qed.
+
+Lemma lancero_collisions_rejected s :
+  NoDup (map c_dev (l_active s)) -> dims_nonneg (l_active s) ->
+  let nums := map e_num (fst (fst (fst (lancero_number s 0 false)))) in
+  (exists p q, 0 <= p < zlen nums /\ 0 <= q < zlen nums /\ p / 2 <> q / 2 /\ znth 0 nums p = znth 0 nums q) ->
+  snd (lancero_prepare s) = None.
+Proof.
+  intros ND D nums (p & q & Hp & Hq & N & E).
+  destruct (lancero_prepare s) as [s' [t|]] eqn:H; [|reflexivity]. exfalso.
+  destruct (lancero_numbering _ _ _ ND D H) as (B1 & _ & B3 & _).
+  destruct (lancero_prepare_accept _ _ _ H) as (es & gs & sd & mx & Nm & -> & _).
+  subst nums. rewrite Nm in *. cbn [fst tables_of t_nums] in *.
+  apply N. apply (proj1 (B3 p q ltac:(lia) ltac:(lia))). exact E.
+Qed.
+
+(* geometry *)
+Lemma In_lancero_geos g cards : In g (lancero_geos cards) ->
+  exists d, In d cards /\ 0 <= g_row g < c_nrows d /\ 0 <= g_col g < c_ncols d /\
+            g_rows g = c_nrows d /\ g_cols g = c_ncols d.
+Proof.
+  unfold lancero_geos, card_geos. intro H. apply in_flat_map in H as [d [Hd H]].
+  apply in_flat_map in H as [col [Hc H]]. apply in_map_iff in H as [row [<- Hr]].
+  apply zrange_In in Hc, Hr. exists d. cbn. repeat split; auto; lia.
+Qed.
+
+Lemma znth_In {A} (d : A) l i : 0 <= i < zlen l -> In (znth d l i) l.
+Proof.
+  intro H. unfold znth, zlen in *. destruct (i <? 0) eqn:E; [lia|]. apply nth_In. lia.
+Qed.
+
+Lemma znth_map {A B} (f : A -> B) (da : A) (db : B) l i : 0 <= i < zlen l -> znth db (map f l) i = f (znth da l i).
+Proof.
+  intro H. unfold znth, zlen in *. destruct (i <? 0) eqn:E; [lia|].
+  rewrite nth_indep with (d' := f da) by (rewrite map_length; lia). apply map_nth.
+Qed.
+
+Lemma lancero_codes_decode s s' t :
+  NoDup (map c_dev (l_active s)) -> dims_in_field (l_active s) ->
+  lancero_prepare s = (s', Some t) ->
+  forall p, 0 <= p < 2 * zlen (lancero_geos (l_active s)) ->
+    let g := znth geo0 (lancero_geos (l_active s)) (p / 2) in
+    let c := znth 0 (t_rc t) p in
+    rc_row c = g_row g /\ rc_col c = g_col g /\ rc_rows c = g_rows g /\ rc_cols c = g_cols g.
+Proof.
+  intros ND F H p Hp.
+  assert (D : dims_nonneg (l_active s)).
+  { unfold dims_nonneg, dims_in_field in *. rewrite Forall_forall in *. intros d Hd. specialize (F d Hd). lia. }
+  destruct (lancero_identity _ _ _ ND D H) as (_ & _ & _ & _ & A5 & _).
+  cbv zeta. rewrite A5. rewrite dup_znth by (rewrite zlen_map; lia).
+  assert (R : 0 <= p / 2 < zlen (lancero_geos (l_active s))).
+  { split; [apply Z.div_pos; lia | apply Z.div_lt_upper_bound; lia]. }
+  rewrite (znth_map geo_code geo0 0) by exact R.
+  pose proof (znth_In geo0 _ _ R) as I. apply In_lancero_geos in I as (d & Hd & G1 & G2 & G3 & G4).
+  unfold dims_in_field in F. rewrite Forall_forall in F. specialize (F d Hd).
+  unfold geo_code. apply rc_decode; lia.
+Qed.
+
+(* sub-frame facts do not depend on what the object went through before *)
+Lemma devs_loop_sd_set devs first sepCards sepCols : forall cnum tcf sd mx es gs sd' mx',
+  sd <> 0 -> devs_loop devs first sepCards sepCols cnum tcf sd mx = (es, gs, sd', mx') ->
+  sd' = sd /\ mx' = mx || existsb (fun d => negb (c_nrows d =? sd)) devs.
+Proof.
+  induction devs as [|d rest IH]; intros cnum tcf sd mx es gs sd' mx' NZ H.
+  - cbn [devs_loop] in H. injection H as <- <- <- <-. cbn. now rewrite orb_false_r.
+  - cbn [devs_loop] in H.
+    destruct (sd =? 0) eqn:E0; [lia|].
+    match type of H with context [cols_loop ?a ?b ?c ?d ?e ?f] =>
+      destruct (cols_loop a b c d e f) as [[[es1 gs1] c1] t1] eqn:E1 end.
+    match type of H with context [devs_loop rest first sepCards sepCols c1 t1 ?a ?b] =>
+      destruct (devs_loop rest first sepCards sepCols c1 t1 a b) as [[[es2 gs2] sd2] mx2] eqn:E2 end.
+    injection H as <- <- <- <-.
+    destruct (IH _ _ _ _ _ _ _ _ NZ E2) as [-> ->]. split; [reflexivity|].
+    cbn [existsb]. rewrite (Z.eqb_sym (c_nrows d) sd).
+    destruct (sd =? c_nrows d); cbn [negb]; destruct mx; reflexivity.
+Qed.
+
+Lemma lancero_subframe_facts s s' t :
+  lancero_prepare s = (s', Some t) ->
+  Forall (fun d => 1 <= c_nrows d) (l_active s) -> l_active s <> [] ->
+  t_subdiv t = first_rows (l_active s) /\ l_subdiv s' = first_rows (l_active s) /\
+  l_mixed s' = rows_mixed (l_active s).
+Proof.
+  intros H R NE. destruct (lancero_prepare_accept _ _ _ H) as (es & gs & sd & mx & N & -> & -> & _).
+  cbn [tables_of t_subdiv l_subdiv l_mixed]. unfold lancero_number in N.
+  destruct (l_active s) as [|d rest] eqn:EA; [congruence|].
+  cbn [devs_loop] in N. cbn [Z.eqb] in N.
+  match type of N with context [cols_loop ?a ?b ?c ?d ?e ?f] =>
+    destruct (cols_loop a b c d e f) as [[[es1 gs1] c1] t1] eqn:E1 end.
+  match type of N with context [devs_loop rest ?x ?y ?z c1 t1 ?a ?b] =>
+    destruct (devs_loop rest x y z c1 t1 a b) as [[[es2 gs2] sd2] mx2] eqn:E2 end.
+  injection N as <- <- <- <-.
+  inversion R as [|? ? Rd Rr]; subst.
+  assert (NZ : c_nrows d <> 0) by lia.
+  destruct (devs_loop_sd_set _ _ _ _ _ _ _ _ _ _ _ _ NZ E2) as [-> ->].
+  cbn [first_rows]. repeat split.
+  unfold rows_mixed. cbn [existsb first_rows]. rewrite Z.eqb_refl. reflexivity.
+Qed.
+
+Lemma lancero_history_independent act first sepCards sepCols e sd1 mx1 sd2 mx2 :
+  snd (lancero_prepare (mkL act first sepCards sepCols sd1 mx1 e)) =
+  snd (lancero_prepare (mkL act first sepCards sepCols sd2 mx2 e)).
+Proof.
+  unfold lancero_prepare, rows_exceed_sep, card_exceeds_sep, lancero_number, set_sepCols.
+  cbn [l_active l_first l_sepCards l_sepCols l_subdiv l_mixed l_cfgerr].
+  repeat match goal with |- context [if ?c then _ else _] => destruct c; try reflexivity end.
+  all: try (destruct (devs_loop act first sepCards sepCols first (first - sepCols) 0 false) as [[[es gs] sd] mx];
+            reflexivity).
+Qed.
+
+(* ================================================================ Configure *)
+
+Lemma zmem_In x l : zmem x l = true <-> In x l.
+Proof.
+  unfold zmem. rewrite existsb_exists. split.
+  - intros [y [Hy E]]. apply Z.eqb_eq in E. now subst.
+  - intro H. exists x. split; [exact H | apply Z.eqb_refl].
+Qed.
+
+Lemma activate_spec avail : forall req active act ok,
+  NoDup active -> activate avail req active = (act, ok) ->
+  NoDup act /\ (ok = true -> act = active ++ req /\ forall c, In c req -> In c avail).
+Proof.
+  induction req as [|c rest IH]; intros active act ok ND H; cbn [activate] in H.
+  - injection H as <- <-. split; [exact ND|]. intros _. rewrite app_nil_r. split; [reflexivity | intros c []].
+  - destruct (zmem c avail) eqn:E1; cbn [negb] in H.
+    2:{ injection H as <- <-. split; [exact ND | discriminate]. }
+    destruct (zmem c active) eqn:E2.
+    { injection H as <- <-. split; [exact ND | discriminate]. }
+    assert (ND' : NoDup (active ++ [c])).
+    { apply NoDup_app_intro; [exact ND | repeat constructor; intros [] |].
+      intros x Hx [<-|[]]. apply zmem_In in Hx. congruence. }
+    destruct (IH _ _ _ ND' H) as [I1 I2]. split; [exact I1|].
+    intro OK. destruct (I2 OK) as [-> I3]. rewrite <- app_assoc. split; [reflexivity|].
+    intros x [<-|Hx]; [now apply zmem_In | auto].
+Qed.
+
+Lemma NoDup_fst_combine {B} (l : list Z) (g : list B) : NoDup l -> NoDup (map fst (combine l g)).
+Proof.
+  revert g; induction l as [|x l IH]; intros g ND; [constructor|].
+  destruct g as [|y g]; [constructor|]. inversion ND as [|? ? Hx ND']; subst.
+  cbn [combine map fst]. constructor; [|auto].
+  intro H. apply Hx. apply in_map_iff in H as [[a b] [<- H]]. cbn. eapply in_combine_l; eauto.
+Qed.
+
+Lemma configure_active_distinct s avail req nsamp first sepCards sepCols geom s' :
+  lancero_configure s avail req nsamp first sepCards sepCols geom = (s', true) ->
+  NoDup (map c_dev (l_active s')) /\ l_cfgerr s' = false /\
+  l_first s' = first /\ l_sepCards s' = sepCards /\ l_sepCols s' = sepCols /\
+  (zlen req <= zlen geom -> map c_dev (l_active s') = req).
+Proof.
+  unfold lancero_configure. destruct ((nsamp >? 16) || (nsamp <? 1)); [discriminate|].
+  destruct (activate avail req []) as [act ok] eqn:A. intro H. injection H as <- ->.
+  cbn [l_active l_cfgerr l_first l_sepCards l_sepCols negb].
+  destruct (activate_spec _ _ _ _ _ (NoDup_nil Z) A) as [ND I]. destruct (I eq_refl) as [-> _]. cbn [app] in *.
+  rewrite map_map. cbn [c_dev].
+  repeat split; auto.
+  - replace (map (fun x : Z * (Z * Z) => fst x) (combine req geom)) with (map fst (combine req geom)) by reflexivity.
+    now apply NoDup_fst_combine.
+  - intro L. unfold zlen in L. clear - L. revert geom L. induction req as [|x r IH]; intros geom L; [reflexivity|].
+    destruct geom as [|y g]; cbn [length] in L; [lia|]. cbn [combine map fst]. f_equal. apply IH. lia.
+Qed.
+
+(* ================================================================ the code before the fix *)
+
+Definition old_s1 : lsrc :=
+  fst (lancero_prepare_old (fst (lancero_configure lsrc0 [0] [0] 4 1 0 0 [(2, 4)]))).
+Definition old_s2 : lsrc := fst (lancero_configure old_s1 [0] [0] 4 1 0 0 [(2, 6)]).
+
+Lemma old_code_keeps_stale_subframe_facts :
+  exists t, snd (lancero_prepare_old old_s2) = Some t /\
+            t_subdiv t = 4 /\ first_rows (l_active old_s2) = 6 /\
+            l_mixed (fst (lancero_prepare_old old_s2)) = true /\ rows_mixed (l_active old_s2) = false.
+Proof. eexists. vm_compute. repeat split. Qed.
+
+(* ================================================================ Abaco *)
+
+Lemma overlap_scan_false gs : forall known,
+  overlap_scan gs known = false <->
+  (NoDup (gnums gs) /\ forall x, In x (gnums gs) -> ~ In x known).
+Proof.
+  induction gs as [|[f n] rest IH]; intro known; cbn [overlap_scan gnums flat_map fst snd].
+  - split; [intros _; split; [constructor | intros x []] | reflexivity].
+  - fold (gnums rest).
+    destruct (existsb (fun c => zmem c known) (zrange f n)) eqn:E.
+    + split; [discriminate|]. intros [_ H]. apply existsb_exists in E as [c [Hc Hk]].
+      apply zmem_In in Hk. exfalso. apply (H c); [apply in_app_iff; now left | exact Hk].
+    + rewrite IH. pose proof (existsb_false _ _ E) as E'. split.
+      * intros [ND H]. split.
+        -- apply NoDup_app_intro; [apply zrange_NoDup | exact ND |].
+           intros x Hx Hr. apply (H x Hr). apply in_app_iff. now left.
+        -- intros x Hx. apply in_app_iff in Hx as [Hx|Hx].
+           ++ intro K. specialize (E' x Hx). cbv beta in E'. apply zmem_In in K. congruence.
+           ++ intro K. apply (H x Hx). apply in_app_iff. now right.
+      * intros [ND H]. apply NoDup_app_inv in ND as (N1 & N2 & N3). split; [exact N2|].
+        intros x Hx K. apply in_app_iff in K as [K|K].
+        -- exact (N3 x K Hx).
+        -- apply (H x); [apply in_app_iff; now right | exact K].
+Qed.
+
+Lemma NoDup_gnums_pdisj gs : NoDup (gnums gs) -> pdisj gs.
+Proof.
+  induction gs as [|g r IH]; cbn [gnums flat_map pdisj]; intro ND; [exact I|]. fold (gnums r) in ND.
+  apply NoDup_app_inv in ND as (N1 & N2 & N3). split; [|auto].
+  apply Forall_forall. intros h Hh. unfold gdisj.
+  destruct (Z_le_gt_dec (snd g) 0) as [?|Pg]; [now left|].
+  destruct (Z_le_gt_dec (snd h) 0) as [?|Ph]; [right; now left|].
+  destruct (Z_le_gt_dec (fst g + snd g) (fst h)) as [?|A]; [right; right; now left|].
+  destruct (Z_le_gt_dec (fst h + snd h) (fst g)) as [?|B]; [right; right; now right|].
+  exfalso. apply (N3 (Z.max (fst g) (fst h))).
+  - apply zrange_In. lia.
+  - apply In_gnums. exists h. split; [exact Hh | unfold in_grp; lia].
+Qed.
+
+Lemma ginsert_perm g l : Permutation (ginsert g l) (g :: l).
+Proof.
+  induction l as [|h t IH]; cbn [ginsert]; [reflexivity|].
+  destruct (fst g <=? fst h); [reflexivity|]. rewrite IH. apply perm_swap.
+Qed.
+Lemma gsort_perm l : Permutation (gsort l) l.
+Proof.
+  induction l as [|g l IH]; cbn [gsort fold_right]; [constructor|].
+  fold (gsort l). rewrite ginsert_perm. now constructor.
+Qed.
+
+Fixpoint gsorted (l : list gidx) : Prop :=
+  match l with
+  | g :: ((h :: _) as r) => fst g <= fst h /\ gsorted r
+  | _ => True
+  end.
+
+Lemma ginsert_sorted g l : gsorted l -> gsorted (ginsert g l).
+Proof.
+  induction l as [|h t IH]; intro S; cbn [ginsert]; [exact I|].
+  destruct (fst g <=? fst h) eqn:E.
+  - cbn [gsorted]. split; [lia | exact S].
+  - destruct t as [|k t'].
+    + cbn [ginsert gsorted]. split; [lia | exact I].
+    + cbn [gsorted] in S. destruct S as [S1 S2]. specialize (IH S2).
+      cbn [ginsert] in *. destruct (fst g <=? fst k) eqn:E2; cbn [gsorted] in *; repeat split; try lia; tauto.
+Qed.
+Lemma gsort_sorted l : gsorted (gsort l).
+Proof. induction l as [|g l IH]; cbn [gsort fold_right]; [exact I | now apply ginsert_sorted]. Qed.
+
+Lemma gnums_perm a b : Permutation a b -> Permutation (gnums a) (gnums b).
+Proof. intro P. unfold gnums. now apply Permutation_flat_map. Qed.
+
+Lemma abaco_rows_nums rows col ncol g :
+  map e_num (abaco_rows rows col ncol g) = map (fun row => row + fst g) rows /\
+  map e_name (abaco_rows rows col ncol g) = map (fun row => chan_name (row + fst g)) rows.
+Proof. unfold abaco_rows. rewrite !map_map. cbn [e_num e_name]. split; reflexivity. Qed.
+
+Lemma zrange_shift a n : map (fun row => row + a) (zrange 0 n) = zrange a n.
+Proof.
+  rewrite <- (map_id (zrange a n)). apply map_zrange_ext. intros k Hk. lia.
+Qed.
+
+Lemma abaco_cols_spec gs : forall col ncol,
+  map e_num (abaco_cols gs col ncol) = gnums gs /\
+  map e_name (abaco_cols gs col ncol) = map chan_name (gnums gs) /\
+  map e_sub (abaco_cols gs col ncol) = map (fun _ => 0) (gnums gs).
+Proof.
+  induction gs as [|g r IH]; intros col ncol; cbn [abaco_cols gnums flat_map]; [repeat split|].
+  fold (gnums r). rewrite !map_app. destruct (IH (col + 1) ncol) as (I1 & I2 & I3). rewrite I1, I2, I3.
+  unfold abaco_rows. rewrite !map_map. cbn [e_num e_name e_sub].
+  rewrite <- (zrange_shift (fst g) (snd g)). rewrite !map_map. repeat split.
+Qed.
+
+Lemma chan_names_NoDup l : NoDup l -> NoDup (map chan_name l).
+Proof.
+  induction l as [|x l IH]; intro ND; [constructor|]. inversion ND as [|? ? Hx ND']; subst.
+  cbn [map]. constructor; [|auto]. intro H. apply in_map_iff in H as [y [E Hy]].
+  apply chan_name_inj in E. subst. auto.
+Qed.
+
+Lemma abaco_accept_iff pk :
+  abaco_sample pk <> None <-> NoDup (gnums (group_keys pk [])).
+Proof.
+  unfold abaco_sample. destruct (overlap_scan (group_keys pk []) []) eqn:E.
+  - split; [congruence|]. intro ND. exfalso.
+    assert (overlap_scan (group_keys pk []) [] = false) by (apply overlap_scan_false; split; [exact ND | intros x _ []]).
+    congruence.
+  - apply overlap_scan_false in E as [ND _]. split; [intros _; exact ND | discriminate].
+Qed.
+
+Lemma abaco_identity pk sorted nchan :
+  abaco_sample pk = Some (sorted, nchan) ->
+  let t := abaco_prepare sorted in
+  Permutation sorted (group_keys pk []) /\ gsorted sorted /\
+  t_groups t = sorted /\ t_nums t = gnums sorted /\ NoDup (t_nums t) /\
+  t_names t = map chan_name (t_nums t) /\ NoDup (t_names t) /\ pdisj sorted /\
+  (forall x, In x (t_nums t) <-> exists g, In g (t_groups t) /\ in_grp x g).
+Proof.
+  unfold abaco_sample. destruct (overlap_scan (group_keys pk []) []) eqn:E; [discriminate|].
+  intro H. injection H as <- <-. apply overlap_scan_false in E as [ND _]. cbv zeta.
+  unfold abaco_prepare. cbn [tables_of t_groups t_nums t_names].
+  destruct (abaco_cols_spec (gsort (group_keys pk [])) 0 (zlen (gsort (group_keys pk [])))) as (A1 & A2 & A3).
+  rewrite A1, A2.
+  assert (ND' : NoDup (gnums (gsort (group_keys pk [])))).
+  { eapply Permutation_NoDup; [|exact ND]. symmetry. apply gnums_perm, gsort_perm. }
+  repeat split; auto.
+  - apply gsort_perm.
+  - apply gsort_sorted.
+  - now apply chan_names_NoDup.
+  - now apply NoDup_gnums_pdisj.
+  - apply In_gnums.
+  - apply In_gnums.
+Qed.
+
+(* ================================================================ file names *)
+
+Lemma sapp_assoc a b c : String.append (String.append a b) c = String.append a (String.append b c).
+Proof. induction a as [|x a IH]; cbn; [reflexivity | now rewrite IH]. Qed.
+
+Lemma no_percent_app a b : no_percent a -> no_percent b -> no_percent (String.append a b).
+Proof. induction a as [|x a IH]; cbn; [auto | intros [H1 H2] Hb; split; auto]. Qed.
+
+Lemma go_sprintf_literal lit : no_percent lit -> forall rest args,
+  go_sprintf (String.append lit rest) args = option_map (String.append lit) (go_sprintf rest args).
+Proof.
+  induction lit as [|c lit IH]; cbn [no_percent String.append]; intros H rest args.
+  - destruct (go_sprintf rest args); reflexivity.
+  - destruct H as [H1 H2]. cbn [go_sprintf].
+    destruct (Ascii.eqb c "%") eqn:E; [apply Ascii.eqb_eq in E; contradiction|].
+    rewrite IH by exact H2. destruct (go_sprintf rest args); reflexivity.
+Qed.
+
+Lemma go_sprintf_tail a b :
+  go_sprintf "%s.%s" [a; b] = Some (String.append a (String "." b)).
+Proof.
+  cbn. f_equal. f_equal. f_equal. induction b as [|c b IH]; cbn; [reflexivity | now rewrite IH].
+Qed.
+
+Lemma nilempty_uint_no_percent d : no_percent (NilEmpty.string_of_uint d).
+Proof. induction d; cbn; repeat split; auto; discriminate. Qed.
+
+Lemma dec_no_percent z : no_percent (dec z).
+Proof.
+  unfold dec, NilZero.string_of_int, NilZero.string_of_uint.
+  destruct (Z.to_int z) as [d|d]; destruct d; cbn; repeat split; try discriminate; apply nilempty_uint_no_percent.
+Qed.
+
+Lemma pad4_no_percent i : no_percent (pad4 i).
+Proof.
+  unfold pad4. repeat match goal with |- context [if ?c then _ else _] => destruct c end;
+    try apply dec_no_percent; apply no_percent_app; try apply dec_no_percent; cbn; repeat split; discriminate.
+Qed.
+
+(* the constant part of every file name of one START *)
+Definition file_prefix (base today : string) (i : Z) : string :=
+  String.append (join (join base today) (pad4 i))
+    (String "/" (String.append today (String.append "_run" (String.append (pad4 i) "_")))).
+
+Lemma make_directory_split base today i :
+  make_directory base today i = String.append (file_prefix base today i) "%s.%s".
+Proof.
+  unfold make_directory, file_prefix, join.
+  repeat (rewrite !sapp_assoc; cbn [String.append]). reflexivity.
+Qed.
+
+Lemma file_prefix_no_percent base today i :
+  no_percent base -> no_percent today -> no_percent (file_prefix base today i).
+Proof.
+  intros Hb Ht. unfold file_prefix, join.
+  repeat first [apply no_percent_app | apply pad4_no_percent | assumption
+               | (cbn [no_percent String.append]; split; [discriminate|])];
+  cbn; repeat split; try discriminate.
+Qed.
+
+Lemma filename_value base today i name ext :
+  no_percent base -> no_percent today ->
+  filename (make_directory base today i) name ext =
+  Some (String.append (file_prefix base today i) (String.append name (String "." ext))).
+Proof.
+  intros Hb Ht. unfold filename. rewrite make_directory_split.
+  rewrite go_sprintf_literal by (now apply file_prefix_no_percent).
+  rewrite go_sprintf_tail. reflexivity.
+Qed.
+
+Fixpoint last_char (s : string) : ascii :=
+  match s with
+  | EmptyString => "000"%char
+  | String c EmptyString => c
+  | String _ r => last_char r
+  end.
+
+Lemma last_char_app a c r : last_char (String.append a (String c r)) = last_char (String c r).
+Proof.
+  induction a as [|x a IH]; [reflexivity|]. cbn [String.append].
+  change (last_char (String x (String.append a (String c r)))) with
+    (match String.append a (String c r) with EmptyString => x | _ => last_char (String.append a (String c r)) end).
+  destruct (String.append a (String c r)) eqn:E; [destruct a; discriminate | exact IH].
+Qed.
+
+Lemma append_inj_r s : forall a b, String.append a s = String.append b s -> a = b.
+Proof.
+  assert (L : forall a, String.length (String.append a s) = (String.length a + String.length s)%nat).
+  { induction a; cbn; [reflexivity | now rewrite IHa]. }
+  induction a as [|x a IH]; intros b H.
+  - destruct b as [|y b]; [reflexivity|]. apply (f_equal String.length) in H. rewrite !L in H. cbn in H. lia.
+  - destruct b as [|y b].
+    + apply (f_equal String.length) in H. rewrite !L in H. cbn in H. lia.
+    + cbn in H. injection H as -> H. f_equal. auto.
+Qed.
+
+Lemma filenames_injective_lemma base today i n1 e1 n2 e2 f :
+  no_percent base -> no_percent today -> In e1 exts -> In e2 exts ->
+  filename (make_directory base today i) n1 e1 = Some f ->
+  filename (make_directory base today i) n2 e2 = Some f ->
+  n1 = n2 /\ e1 = e2.
+Proof.
+  intros Hb Ht H1 H2 F1 F2. rewrite filename_value in F1, F2 by assumption.
+  rewrite <- F2 in F1. injection F1 as F. apply append_inj_l in F.
+  assert (E : e1 = e2).
+  { apply (f_equal last_char) in F.
+    unfold exts in H1, H2. cbn [In] in H1, H2.
+    destruct H1 as [<-|[<-|[<-|[]]]]; destruct H2 as [<-|[<-|[<-|[]]]]; try reflexivity;
+      rewrite !last_char_app in F; cbn in F; discriminate. }
+  subst e2. split; [|reflexivity]. now apply append_inj_r in F.
+Qed.
+
+Lemma NoDup_znth_inj_gen {A} (d : A) (l : list A) i j :
+  NoDup l -> 0 <= i < zlen l -> 0 <= j < zlen l -> znth d l i = znth d l j -> i = j.
+Proof.
+  intros ND Hi Hj E. unfold znth in E. unfold zlen in *.
+  destruct (i <? 0) eqn:E1; [lia|]. destruct (j <? 0) eqn:E2; [lia|].
+  assert (Z.to_nat i = Z.to_nat j) by (apply (proj1 (NoDup_nth l d) ND); try lia; exact E). lia.
+Qed.
+
+Lemma distinct_streams_distinct_files names base today i e1 e2 p q f1 f2 :
+  NoDup names -> no_percent base -> no_percent today ->
+  0 <= p < zlen names -> 0 <= q < zlen names -> p <> q -> In e1 exts -> In e2 exts ->
+  filename (make_directory base today i) (znth_s names p) e1 = Some f1 ->
+  filename (make_directory base today i) (znth_s names q) e2 = Some f2 ->
+  f1 <> f2.
+Proof.
+  intros ND Hb Ht Hp Hq N E1 E2 F1 F2 E. subst f2.
+  destruct (filenames_injective_lemma _ _ _ _ _ _ _ _ Hb Ht E1 E2 F1 F2) as [En _].
+  apply N. unfold znth_s in En. eapply NoDup_znth_inj_gen; eauto.
+Qed.
+
+(* ================================================================ sources with one stream per channel *)
+
+Lemma simple_tables_identity n :
+  NoDup (zrange 0 n) /\ NoDup (map chan_name (zrange 0 n)) /\
+  (forall x, In x (zrange 0 n) <-> exists g, In g [(0, n)] /\ in_grp x g) /\ pdisj [(0, n)].
+Proof.
+  repeat split.
+  - apply zrange_NoDup.
+  - apply chan_names_NoDup, zrange_NoDup.
+  - intro H. apply zrange_In in H. exists (0, n). split; [now left | unfold in_grp; cbn; lia].
+  - intros [g [[<-|[]] H]]. apply zrange_In. unfold in_grp in H. cbn in H. lia.
+  - constructor.
+Qed.
+
+Lemma roach_tables n :
+  t_nums (roach_prepare n) = zrange 0 n /\ t_names (roach_prepare n) = map chan_name (zrange 0 n) /\
+  t_groups (roach_prepare n) = [(0, n)] /\
+  t_rc (roach_prepare n) = map (fun row => rc_code row 0 n 1) (zrange 0 n).
+Proof.
+  unfold roach_prepare. cbn [tables_of t_nums t_names t_groups t_rc]. rewrite !map_map. cbn [e_num e_name e_rc].
+  repeat split. now rewrite map_id.
+Qed.
+
+Lemma default_tables n rc sd :
+  t_nums (default_prepare n rc sd) = zrange 0 n /\ t_names (default_prepare n rc sd) = map chan_name (zrange 0 n) /\
+  t_groups (default_prepare n rc sd) = [(0, n)].
+Proof. repeat split. Qed.
+
+Lemma single_group_sources n rc sd t :
+  In t [roach_prepare n; default_prepare n rc sd] ->
+  t_nums t = zrange 0 n /\ t_names t = map chan_name (t_nums t) /\ t_groups t = [(0, n)] /\
+  NoDup (t_nums t) /\ NoDup (t_names t) /\
+  (forall x, In x (t_nums t) <-> exists g, In g (t_groups t) /\ in_grp x g) /\ pdisj (t_groups t).
+Proof.
+  destruct (simple_tables_identity n) as (S1 & S2 & S3 & S4).
+  intros [<-|[<-|[]]].
+  - destruct (roach_tables n) as (R1 & R2 & R3 & _). rewrite R1, R2, R3. repeat split; auto; apply S3.
+  - destruct (default_tables n rc sd) as (R1 & R2 & R3). rewrite R1, R2, R3. repeat split; auto; apply S3.
+Qed.
+
+(* ================================================================ examples: the hypotheses are satisfiable *)
+
+(* two cards (device numbers 3 and 0), 3x5 and 2x5, both separations in force, exactly large enough *)
+Definition ex_s : lsrc := fst (lancero_configure lsrc0 [0;1;2;3] [3;0] 1 0 24 8 [(3,5);(2,5)]).
+Example ex_accepted :
+  NoDup (map c_dev (l_active ex_s)) /\ dims_in_field (l_active ex_s) /\ dims_nonneg (l_active ex_s) /\
+  Forall (fun d => 1 <= c_nrows d) (l_active ex_s) /\ l_active ex_s <> [] /\
+  exists t, snd (lancero_prepare ex_s) = Some t /\ zlen (t_nums t) = 50 /\
+            t_groups t = [(72,5);(80,5);(88,5);(0,5);(8,5)].
+Proof.
+  assert (A : l_active ex_s = [mkCard 3 3 5; mkCard 0 2 5]) by reflexivity.
+  rewrite A. split; [|split; [|split; [|split; [|split]]]].
+  - cbn. repeat constructor; cbn; intuition discriminate.
+  - repeat constructor; cbn; lia.
+  - repeat constructor; cbn; lia.
+  - repeat constructor; cbn; lia.
+  - discriminate.
+  - eexists. vm_compute. repeat split.
+Qed.
+
+(* card separation one too small: the raw numbering collides, and the configuration is refused *)
+Definition ex_bad : lsrc := fst (lancero_configure lsrc0 [0;1] [0;1] 1 1 14 0 [(3,5);(2,5)]).
+Example ex_collision :
+  NoDup (map c_dev (l_active ex_bad)) /\ dims_nonneg (l_active ex_bad) /\
+  (let nums := map e_num (fst (fst (fst (lancero_number ex_bad 0 false)))) in
+   0 <= 28 < zlen nums /\ 0 <= 30 < zlen nums /\ 28 / 2 <> 30 / 2 /\ znth 0 nums 28 = znth 0 nums 30) /\
+  snd (lancero_prepare ex_bad) = None.
+Proof.
+  assert (A : l_active ex_bad = [mkCard 0 3 5; mkCard 1 2 5]) by reflexivity.
+  rewrite A. split; [|split; [|split]].
+  - cbn. repeat constructor; cbn; intuition discriminate.
+  - repeat constructor; cbn; lia.
+  - vm_compute. repeat split; congruence.
+  - reflexivity.
+Qed.
+
+Example ex_abaco :
+  abaco_sample [(4, 4); (4, 0); (4, 4)] = Some ([(0, 4); (4, 4)], 8) /\
+  abaco_sample [(4, 0); (4, 3)] = None.
+Proof. split; reflexivity. Qed.
+
+Example ex_filename :
+  no_percent "/data" /\ no_percent "20260930" /\
+  filename (make_directory "/data" "20260930" 7) "err12" "ljh" = Some "/data/20260930/0007/20260930_run0007_err12.ljh"%string.
+Proof. repeat split; try discriminate. Qed.
